@@ -984,8 +984,10 @@ class Program:
             if key in self.fns:
                 out.add(self.fns[key])
                 return
-            # unresolved trait method of a local trait: every local impl may be the target
-            impls = self.trait_impls.get(key)
+            # unresolved trait method of a trait defined in the workspace: every local impl may be the
+            # target.  Unresolved std-trait methods on a type parameter (Default, Clone, ...) stay opaque
+            # external callees: fanning them out to every impl in the workspace connects unrelated types.
+            impls = self.trait_impls.get(key) if any(key.startswith(c + '::') for c in self.crates) else None
             if impls:
                 for i in impls:
                     out.add(i)
